@@ -126,7 +126,8 @@ class Env:
         return cands[0]
 
     # -- templates by field name
-    def struct(self, name, **fields):
+    def struct(self, _struct_name, **fields):
+        name = _struct_name
         order = self.layout.fields(name)
         if set(order) != set(fields):
             raise Inconclusive(f'struct {name} fields changed: source has {order}, driver binds {sorted(fields)}')
